@@ -423,7 +423,11 @@ def run(ctx, R, tier):
     from ..report import Rules
     from . import c17
     R17 = Rules("C17")
-    c17.run(ctx, R17, tier)
+    try:
+        c17.run(ctx, R17, tier)
+    except AnalysisError as _shared_x:
+        # the other property's own anchors are gone on this tree: its check reports that; what it produced before is still shared
+        R.note("obligations shared from C17 are incomplete on this tree: %s" % _shared_x)
     for o in R17.obs:
         if o.rule in ("C17-R1", "C17-R5"):
             R.add("C06-R8", o.key.split("|", 1)[1], o.desc + " (recv_stub relies on it to consume exactly this message's bytes)", o.ok, o.loc, o.detail)
